@@ -24,23 +24,16 @@ Section Main.
   Lemma Inv_empty : Inv empty_state.
   Proof. split; cbn; intros; discriminate. Qed.
 
-  Lemma safe_body_no_index : forall us, safe_body us = true -> existsb is_index us = false /\ forallb not_index us = true.
-  Proof.
-    intros us H. unfold safe_body in H. revert H. generalize us at 1 as w. induction us as [|u r IH]; intros w H; [split; reflexivity|].
-    cbn in H. apply andb_true_iff in H. destruct H as [H1 H2]. destruct (IH w H2) as [A B].
-    destruct u; cbn in *; try discriminate; auto.
-  Qed.
-
   Lemma analyze_ok : forall us e a, analyze us e = Ok a -> a = classify_cells us 0 e.
   Proof.
     intros us e a H. unfold analyze in H.
-    destruct (rejects _ true); [discriminate|]. destruct (existsb is_index us); [discriminate|].
+    destruct (rejects _ true); [discriminate|].
     destruct (rejects _ false); [discriminate|]. inversion H. reflexivity.
   Qed.
 
-  Lemma analyze_not_typeerr : forall us e, safe_body us = true -> analyze us e <> TypeErr /\ analyze us e <> DomErr.
+  Lemma analyze_not_typeerr : forall us e, analyze us e <> TypeErr /\ analyze us e <> DomErr.
   Proof.
-    intros us e H. destruct (safe_body_no_index us H) as [A _]. unfold analyze. rewrite A.
+    intros us e. unfold analyze.
     destruct (rejects _ true); [split; discriminate|]. destruct (rejects _ false); split; discriminate.
   Qed.
 
@@ -62,16 +55,17 @@ Section Main.
       - destruct (analyze (U code) e) as [a| | |] eqn:EN.
         + exists a, {| analyses := (code, a) :: analyses st; cache := cache st |}. left. right. auto.
         + exists [], st. right. auto.
-        + exfalso. apply (proj1 (analyze_not_typeerr (U code) e GB)). exact EN.
-        + exfalso. apply (proj2 (analyze_not_typeerr (U code) e GB)). exact EN. }
+        + exfalso. apply (proj1 (analyze_not_typeerr (U code) e)). exact EN.
+        + exfalso. apply (proj2 (analyze_not_typeerr (U code) e)). exact EN. }
     destruct HA as (a & st1 & [[[EA ->]|(EA & EN & ->)]|(EA & EN & -> & ->)]).
     3: { rewrite EA, EN. cbn. split; [split; assumption|left; reflexivity]. }
     - (* stored analysis *)
       rewrite EA. destruct (I1 code a EA) as (e00 & K00 & ->).
       assert (Ha : classify_cells (U code) 0 e00 = classify_cells (U code) 0 e).
       { apply classify_cells_kind. congruence. }
+      match goal with |- context [existsb ?f (classify_cells (U code) 0 e00)] => destruct (existsb f (classify_cells (U code) 0 e00)) end; [cbn; split; [split; assumption|left; reflexivity]|].
       set (key := pkey ++ [(code, keyparts (classify_cells (U code) 0 e00) e)]).
-      destruct (build_fill_uses F (classify_cells (U code) 0 e00) e (U code) its GS (proj2 (safe_body_no_index _ GB)) Hd)
+      destruct (build_fill_uses F (classify_cells (U code) 0 e00) e (U code) its GS Hd)
         as (p' & Hb' & Hf').
       destruct (assoc_key key (cache st)) as [p|] eqn:EC.
       + cbn. split; [split; assumption|]. right. exists key, p. split; [reflexivity|].
@@ -99,7 +93,8 @@ Section Main.
       { cbn. intros code0 a0 H0. destruct (N.eqb code0 code) eqn:EQ.
         - apply N.eqb_eq in EQ. subst code0. inversion H0. exists e. split; [exact GK|reflexivity].
         - exact (I1 code0 a0 H0). }
-      destruct (build_fill_uses F a e (U code) its GS (proj2 (safe_body_no_index _ GB)) Hd) as (p' & Hb' & Hf').
+      match goal with |- context [existsb ?f a] => destruct (existsb f a) end; [cbn; split; [split; [exact I1'|exact I2]|left; reflexivity]|].
+      destruct (build_fill_uses F a e (U code) its GS Hd) as (p' & Hb' & Hf').
       cbn [cache analyses].
       destruct (assoc_key key (cache st)) as [p|] eqn:EC.
       + cbn. split; [split; [exact I1'|exact I2]|]. right. exists key, p. split; [reflexivity|].
